@@ -32,7 +32,7 @@ let () =
     | "M" :: pid :: dir :: ds :: ss :: fd :: fs :: "=>" :: res :: _ ->
         (* UnionIter driven directly: the model's cursor machine on the same two lists *)
         let m = union_iter (dir = "rev") (parse_kvs ds) (parse_kvs ss) in
-        incr n; bump ("merge:" ^ dir);
+        incr n; incr progs; bump ("merge:" ^ dir);
         let ok =
           if fd = "0" && fs = "0" then kvs_string m = res
           else begin
@@ -72,6 +72,7 @@ let () =
             | "staging" -> let h = int_of_nat (staging_handle !pst.p_mem) in ignore (papply PStaging); "h " ^ string_of_int h
             | "release" -> papply (PRelease (nat_of_int (int_of_string (a 0))))
             | "cleanup" -> papply (PCleanup (nat_of_int (int_of_string (a 0))))
+            | "iter" -> "err"   (* not supported by the pipelined buffer *)
             | "flush" -> papply PFlush
             | "fdone" -> papply PFlushDone
             | "fwait" -> papply PFlushWait
